@@ -962,8 +962,13 @@ class Scope:
       abs_value = jax.eval_shape(
         lambda: init_fn(random.key(0), *init_args, **init_kwargs)
       )
-      abs_value_flat = jax.tree_util.tree_leaves(abs_value)
-      value_flat = jax.tree_util.tree_leaves(value)
+      abs_value_paths, abs_value_flat = _paths_and_leaves(meta.unbox(abs_value))
+      value_paths, value_flat = _paths_and_leaves(meta.unbox(value))
+      if value_paths != abs_value_paths:
+        # a pytree-valued parameter with a missing, surplus or renamed leaf
+        raise errors.ScopeParamShapeError(
+          name, self.path_text, abs_value_paths, value_paths
+        )
       for val, abs_val in zip(value_flat, abs_value_flat):
         # NOTE: We could check dtype consistency here as well but it's
         # usefuleness is less obvious. We might intentionally change the dtype
@@ -995,6 +1000,11 @@ class Scope:
     if key not in self.flags and default is no_flag:
       return ValueError(f'Flag {key} not present on scope.')
     return self.flags.get(key, default)
+
+
+def _paths_and_leaves(tree):
+  flat, _ = jax.tree_util.tree_flatten_with_path(tree)
+  return [jax.tree_util.keystr(p) for p, _ in flat], [x for _, x in flat]
 
 
 def _copy_dicts(x):
